@@ -704,7 +704,10 @@ pub fn run_type<T: Cat + DecodeAll + DecodeLimit>(ctx: &mut Ctx, stream: &str, n
 					},
 				}
 				let seed = g.rng.next();
+				#[cfg(feature = "codec-std")]
 				crate::stacks::run_stacks::<T>(ctx, name, &bs, seed);
+				#[cfg(not(feature = "codec-std"))]
+				let _ = (seed, &bs);
 			}
 		},
 		"sinks" => {
@@ -1201,10 +1204,12 @@ pub fn run_mel_type<T: Cat>(ctx: &mut Ctx, name: &'static str, o: &TypeOpts, mel
 // ---------------------------------------------------------------------------------------------
 
 /// An `io::Write` that accepts only 1..=7 bytes per `write` call (exercises `write_all`).
+#[cfg(feature = "codec-std")]
 struct Dribble {
 	out: Vec<u8>,
 	rng: Rng,
 }
+#[cfg(feature = "codec-std")]
 impl std::io::Write for Dribble {
 	fn write(&mut self, buf: &[u8]) -> std::io::Result<usize> {
 		let n = (1 + self.rng.below(7) as usize).min(buf.len());
@@ -1221,8 +1226,19 @@ pub fn sinks_case<T: Encode + ?Sized>(ctx: &mut Ctx, name: &str, v: &T, req: &st
 		let a = v.encode();
 		let mut b = Vec::new();
 		v.encode_to(&mut b);
-		let mut d = Dribble { out: vec![], rng: Rng::new(seed) };
-		v.encode_to(&mut d);
+		#[cfg(feature = "codec-std")]
+		let d_out = {
+			let mut d = Dribble { out: vec![], rng: Rng::new(seed) };
+			v.encode_to(&mut d);
+			d.out
+		};
+		#[cfg(not(feature = "codec-std"))]
+		let d_out = {
+			let _ = seed;
+			let mut d: Vec<u8> = Vec::new();
+			v.encode_to(&mut d);
+			d
+		};
 		let mut e: Vec<u8> = Vec::new();
 		{
 			let dynout: &mut dyn parity_scale_codec::Output = &mut e;
@@ -1230,7 +1246,7 @@ pub fn sinks_case<T: Encode + ?Sized>(ctx: &mut Ctx, name: &str, v: &T, req: &st
 		}
 		let u = v.using_encoded(|s| s.to_vec());
 		let n = v.encoded_size();
-		(a, b, d.out, e, u, n)
+		(a, b, d_out, e, u, n)
 	}));
 	match r {
 		Ok((a, b, d, e, u, n)) => {
